@@ -351,7 +351,7 @@ def run(check):
                    'returned twice and another never' % why, construct='self.sorted_nodes = sorted((hash, n) for n in self.nodes)')
 
   # ------------------------------------------------------------------ positions in the ring are taken modulo the ring's own length
-  r_ix = check.rule('R-C05-ring-index', 3, 'every index into the ring (and the walk\'s stop marker) wraps at the length of the ring')
+  r_ix = check.rule('R-C05-ring-index', 2, 'every index into the ring (and the walk\'s stop marker) wraps at the length of the ring')
   for mname in ('get_node', 'get_nodes'):
     m = ring.methods.get(mname)
     if m is None:
@@ -370,21 +370,28 @@ def run(check):
             if u in idx_vars and v not in idx_vars:
               idx_vars.add(v)
               grew = True
+    vn_m = ValueNumbers(cx, m)
+    S_ = ('param', m.params[0])
+    RING_LENS = (('attr', S_, 'ring_len'), ('call', 'len', ('attr', S_, 'ring')))
+    judged_mods = []
     for st in walk_no_nested(m.node, include_self=False):
+      mods = []
       if isinstance(st, ast.Assign) and any(isinstance(t, ast.Name) and t.id in idx_vars for t in st.targets):
-        mods = [b for b in ast.walk(st.value) if isinstance(b, ast.BinOp) and isinstance(b.op, ast.Mod)]
-        vn_m = ValueNumbers(cx, m)
-        S_ = ('param', m.params[0])
-        for b in mods:
-          mt = vn_m.term(b.right, st)
-          if mt in (('attr', S_, 'ring_len'), ('call', 'len', ('attr', S_, 'ring'))):
-            r_ix.ok('%s: `%s` wraps at the ring length' % (mname, short(st)), m.loc(st))
-          else:
-            r_ix.violate('%s: index wraps at something else' % mname, m, st, '`%s` takes a ring index modulo `%s`, which is not the '
-                         'length of the ring: the walk over the ring then stops early (or never) for keys near the ends of the ring, '
-                         'so fewer replicas than required are returned' % (short(st), unparse(b.right)))
-        if not mods and not isinstance(st.value, ast.Name):
-          pass
+        mods = [(b, st) for b in ast.walk(st.value) if isinstance(b, ast.BinOp) and isinstance(b.op, ast.Mod)]
+      elif isinstance(st, ast.Subscript) and dotted(st.value) == 'self.ring' and not isinstance(st.slice, ast.Name):
+        # an index computed in place:  self.ring[(start + offset) % n]
+        mods = [(b, st) for b in ast.walk(st.slice) if isinstance(b, ast.BinOp) and isinstance(b.op, ast.Mod)]
+      for b, where in mods:
+        if any(b is x for x in judged_mods):
+          continue
+        judged_mods.append(b)
+        mt = vn_m.term(b.right, where)
+        if mt in RING_LENS:
+          r_ix.ok('%s: `%s` wraps at the ring length' % (mname, short(where)), m.loc(where))
+        else:
+          r_ix.violate('%s: index wraps at something else' % mname, m, where, '`%s` takes a ring index modulo `%s`, which is not the '
+                       'length of the ring: the walk over the ring then stops early (or never) for keys near the ends of the ring, '
+                       'so fewer replicas than required are returned' % (short(where), unparse(b.right)))
 
   # ------------------------------------------------------------------ purity
   r_pu = check.rule('R-C05-pure', 4, 'same key and membership -> same ordered list')
